@@ -51,6 +51,59 @@ Proof.
   - assert (1 <= b) by lia. nia.
 Qed.
 
+(* the handlers' division never traps: for every non-zero divisor the quotient is the
+   truncated mathematical quotient wrapped to n bits, the remainder is Z.rem *)
+Lemma quot_m1 : forall a, Z.quot a (-1) = - a.
+Proof.
+  intros a. pose proof (Z.quot_rem' a (-1)). pose proof (Z.rem_bound_abs a (-1) ltac:(lia)). lia.
+Qed.
+
+Lemma rem_m1 : forall a, Z.rem a (-1) = 0.
+Proof. intros a. pose proof (Z.rem_bound_abs a (-1) ltac:(lia)). lia. Qed.
+
+Theorem div_never_traps : forall n a b, 0 < n -> b <> 0 ->
+  idiv n a b = IVal (wrap n (Z.quot a b)) /\ imod n a b = IVal (Z.rem a b) /\
+  in_range n (wrap n (Z.quot a b)) /\
+  (in_range n b -> in_range n (Z.rem a b)).
+Proof.
+  intros n a b Hn Hb0.
+  unfold idiv, imod.
+  destruct (b =? 0) eqn:E; [apply Z.eqb_eq in E; contradiction|].
+  split; [|split; [|split]].
+  - destruct (b =? -1) eqn:E1; [|reflexivity].
+    apply Z.eqb_eq in E1. subst b. now rewrite quot_m1.
+  - destruct (b =? -1) eqn:E1; [|reflexivity].
+    apply Z.eqb_eq in E1. subst b. now rewrite rem_m1.
+  - now apply wrap_in_range.
+  - intro Hb. pose proof (Z.rem_bound_abs a b Hb0). pose proof (half_pos n Hn).
+    unfold in_range in *. lia.
+Qed.
+
+(* the raw operators agree with the handlers' division wherever they do not trap *)
+Theorem raw_div_agrees : forall n a b,
+  (cdiv n a b = ISigFpe \/ cdiv n a b = idiv n a b) /\
+  (cmod n a b = ISigFpe \/ cmod n a b = imod n a b).
+Proof.
+  intros n a b. unfold cdiv, cmod, idiv, imod.
+  destruct (b =? 0); [split; right; reflexivity|].
+  destruct (div_overflows n a b); [split; left; reflexivity|].
+  destruct (b =? -1) eqn:E1; [|split; right; reflexivity].
+  apply Z.eqb_eq in E1. subst b. rewrite quot_m1, rem_m1. split; right; reflexivity.
+Qed.
+
+(* ... the one pair whose mathematical quotient does not fit wraps around *)
+Theorem div_overflow_wraps : forall n, 0 < n ->
+  idiv n (int_min n) (-1) = IVal (int_min n) /\ imod n (int_min n) (-1) = IVal 0.
+Proof.
+  intros n Hn. unfold idiv, imod. cbn. split; [|reflexivity].
+  f_equal. unfold int_min. rewrite Z.opp_involutive.
+  pose proof (half_pos n Hn) as Hh. pose proof (modulus_half n Hn) as Hm.
+  unfold wrap, unsigned, signed.
+  rewrite (Z.mod_small (half n) (modulus n)) by lia.
+  rewrite Z.ltb_irrefl. lia.
+Qed.
+
+(* on every other pair: truncation toward zero, remainder with the sign of the dividend *)
 Theorem div_truncates : forall n a b, 0 < n -> in_range n a -> in_range n b ->
   b <> 0 -> div_overflows n a b = false ->
   exists q r, idiv n a b = IVal q /\ imod n a b = IVal r /\
@@ -58,32 +111,31 @@ Theorem div_truncates : forall n a b, 0 < n -> in_range n a -> in_range n b ->
     in_range n q /\ in_range n r.
 Proof.
   intros n a b Hn Ha Hb Hb0 Hov.
-  exists (Z.quot a b), (Z.rem a b).
-  unfold idiv, imod. rewrite Hov.
-  destruct (b =? 0) eqn:E; [apply Z.eqb_eq in E; contradiction|].
-  pose proof (Z.quot_rem' a b) as Hqr.
-  pose proof (Z.rem_bound_abs a b Hb0) as Hrb.
-  pose proof (half_pos n Hn) as Hh.
-  assert (Hsgn : Z.rem a b = 0 \/ Z.sgn (Z.rem a b) = Z.sgn a).
-  { destruct (Z.eq_dec (Z.rem a b) 0); [left; assumption | right; now apply Z.rem_sign_nz]. }
+  destruct (div_never_traps n a b Hn Hb0) as (D & M & _ & Hr). specialize (Hr Hb).
   assert (Hq : in_range n (Z.quot a b)).
   { unfold in_range. apply quot_in_range; try assumption.
-    unfold div_overflows, int_min in Hov. intros [A B]. subst.
-    rewrite !Z.eqb_refl in Hov. discriminate. }
-  assert (Hr : in_range n (Z.rem a b)).
-  { unfold in_range in *. lia. }
-  split; [reflexivity|]. split; [reflexivity|]. split; [assumption|].
+    - now apply half_pos.
+    - unfold div_overflows, int_min in Hov. intros [A B]. subst.
+      rewrite !Z.eqb_refl in Hov. discriminate. }
+  rewrite (wrap_id n _ Hn Hq) in D.
+  exists (Z.quot a b), (Z.rem a b).
+  pose proof (Z.quot_rem' a b) as Hqr.
+  pose proof (Z.rem_bound_abs a b Hb0) as Hrb.
+  assert (Hsgn : Z.rem a b = 0 \/ Z.sgn (Z.rem a b) = Z.sgn a).
+  { destruct (Z.eq_dec (Z.rem a b) 0); [left; assumption | right; now apply Z.rem_sign_nz]. }
+  split; [assumption|]. split; [assumption|]. split; [assumption|].
   split; [assumption|]. split; [assumption|]. split; assumption.
 Qed.
 
-(* the two excluded operand pairs *)
+(* division by zero is the fault *)
 Theorem div_by_zero_faults : forall n a, idiv n a 0 = IDivZero /\ imod n a 0 = IDivZero.
 Proof. intros. unfold idiv, imod. cbn. split; reflexivity. Qed.
 
-Theorem div_overflow_traps : forall n, 0 < n ->
-  idiv n (int_min n) (-1) = ISigFpe /\ imod n (int_min n) (-1) = ISigFpe.
+(* the raw C operators (still used on enum indices by the reducer) do trap *)
+Theorem raw_div_overflow_traps : forall n, 0 < n ->
+  cdiv n (int_min n) (-1) = ISigFpe /\ cmod n (int_min n) (-1) = ISigFpe.
 Proof.
-  intros n Hn. unfold idiv, imod, div_overflows. cbn.
+  intros n Hn. unfold cdiv, cmod, div_overflows. cbn.
   rewrite Z.eqb_refl. cbn. split; reflexivity.
 Qed.
 
